@@ -113,6 +113,9 @@ func (s *server) didOpen(ctx context.Context, params lsp.DidOpenTextDocumentPara
 func (s *server) didChange(ctx context.Context, params lsp.DidChangeTextDocumentParams) (any, error) {
 	// ContentChanges includes full text since the server is only advertised to
 	// support that; see the initialize method.
+	if len(params.ContentChanges) == 0 {
+		return nil, errInvalidParams
+	}
 	uri, content := params.TextDocument.URI, params.ContentChanges[0].Text
 	s.updateDocument(conn(ctx), uri, content)
 	return nil, nil
